@@ -245,6 +245,7 @@ Proof.
       by (intros; eapply IH; eauto).
     destruct (n_ty (nd h this)); try (intros [= <- _]; assumption);
       try (apply (PW_pins_body n (fun h0 kid => ins fuel cfg_fixed h0 this kid ref)); assumption).
+    destruct (_ && _ && _); [intros [= <- _]; assumption|].
     destruct (_ && _); [intros [= <- _]; assumption|].
     destruct (pins_body _ _ _ _ _ _) as [h1 r1] eqn:E.
     pose proof (PW_pins_body n _ _ _ _ _ _ _ Hi P Ht E) as P1.
